@@ -49,7 +49,7 @@ KINDS = {"grpc": ["grpc", "grpc-async"], "rest": ["rest"]}
 # ------------------------------------------------------------------ generation of cases
 def meta_api(r, defect_case=False):
     pkg = r.choice(PACKAGES)
-    if defect_case == "subpkg":
+    if defect_case in ("subpkg", "deepsub"):
         pkg = r.choice([p for p in PACKAGES if re.fullmatch(r"v[0-9]+.*", p.split(".")[-1]) and "." in p])
     d = "/".join(pkg.split("."))
     nfiles = 1 if r.random() < 0.6 else 2
@@ -122,11 +122,12 @@ def meta_api(r, defect_case=False):
             svc.rpc(rn, inp, resp.fqn, cs=cs, ss=ss, http=("post", f"/v1/{sname.lower()}/r{ri}:call"), body="*")
             all_rpcs.append(f"{pkg}.{sname}.{rn}")
     versioned = bool(re.fullmatch(r"v[0-9]+(p[0-9]+)?((alpha|beta)[0-9]*)?", pkg.split(".")[-1])) and "." in pkg
-    if versioned and (defect_case == "subpkg" or (not defect_case and r.random() < 0.15)):
+    if versioned and (defect_case in ("subpkg", "deepsub") or (not defect_case and r.random() < 0.15)):
         # a service declared in a proto sub-package of the target package, next to the root-package services, with rpc
         # names no root service has: its client is generated, gapic_metadata.json lists it, the fix-up table must too
-        sp = r.choice(["admin", "ops"])
-        g = File(f"{d}/{sp}/{sp}.proto", f"{pkg}.{sp}", deps=list(apigen.STD_DEPS) + [files[0].proto.name])
+        # one level below the package, or two levels below with NO proto file at the intermediate level
+        sp = r.choice(["admin", "ops", "internal.admin", "internal.admin"]) if defect_case != "deepsub" else "internal.admin"
+        g = File(f"{d}/{sp.replace('.', '/')}/{sp.split('.')[-1]}.proto", f"{pkg}.{sp}", deps=list(apigen.STD_DEPS) + [files[0].proto.name])
         gs = g.service(r.choice(["AdminOps", "KeyRotation"]), host="meta.example.com", scopes="https://www.googleapis.com/auth/cloud-platform")
         used = {x.rsplit(".", 1)[1] for x in all_rpcs}
         own = [n for n in ["RotateKeys", "PurgeAll", "Import", "ListV2Items", "SealVault"] if n not in used][:r.randint(1, 3)]
@@ -137,7 +138,7 @@ def meta_api(r, defect_case=False):
             nums = r.sample(range(1, len(fns) + 1), len(fns))
             for k, fn in enumerate(fns):
                 m.field(fn, nums[k], r.choice(["string", "int32", "bool"]), required=r.random() < 0.4)
-            gs.rpc(rn, m.fqn, resp.fqn, http=("post", f"/v1/{sp}/r{ri}:call"), body="*")
+            gs.rpc(rn, m.fqn, resp.fqn, http=("post", f"/v1/{sp.replace('.', '/')}/r{ri}:call"), body="*")
             all_rpcs.append(f"{pkg}.{sp}.{gs.proto.name}.{rn}")
         files.append(g)
     transport = r.choice(["grpc", "rest", "grpc+rest", "grpc+rest"])
@@ -248,6 +249,8 @@ def extra_features(case, d):
         out.append("service without rpcs")
     if any(s["sub"] for s in d["svcs"]):
         out.append("service in a proto sub-package")
+    if any(len(s["sub"]) > 1 for s in d["svcs"]):
+        out.append("service two levels below the package, empty intermediate level")
     if any(a.get("name") == "google.iam.v1.IAMPolicy" for a in (case.get("yaml") or {}).get("apis", [])):
         out.append("IAMPolicy mixin in the service yaml" + (" + own IAM rpcs" if {x["name"] for s in d["svcs"] for x in s["rpcs"]} & set(IAM_REQ) else ""))
     if d["add_iam"]:
@@ -577,7 +580,9 @@ def run_e2e(ctx, cases, label="e2e"):
             continue
         for chk, rr in zip(imp_checks, o["results"]):
             if not rr["is_class"]:
-                ctx.violation(f"gapic_metadata.json names client {chk['client']!r} for {chk['service']} [{chk['kind']}] but {pkg} has no such class", case)
+                where = pkg + ("." + chk["subpackage"] if chk.get("subpackage") else "")
+                ctx.violation(f"gapic_metadata.json names client {chk['client']!r} for {chk['service']} [{chk['kind']}] but {where} has no such class"
+                              + (f" ({rr['error']})" if rr.get("error") else ""), case)
             elif rr["missing"] or rr["not_callable"]:
                 ctx.violation(f"client {chk['client']} of {pkg} lacks methods named by gapic_metadata.json: {rr['missing'] + rr['not_callable']}", case)
     return checks
@@ -633,6 +638,7 @@ def run(ctx):
     cases += [c for c in (make_case("C15-t2-unsafe", i, "unsafe") for i in range(ctx.n(3, 20))) if c]
     cases += [c for c in (make_case("C15-t2-empty", i, "empty") for i in range(ctx.n(4, 24))) if c]
     cases += [c for c in (make_case("C15-t2-subpkg", i, "subpkg") for i in range(ctx.n(4, 24))) if c]
+    cases += [c for c in (make_case("C15-t2-deepsub", i, "deepsub") for i in range(ctx.n(2, 10))) if c]
     cases += [c for c in (make_case("C15-t2-streaming", i, "streaming") for i in range(ctx.n(4, 24))) if c]
     cases += [c for c in (make_case("C15-t2-presence", i, "presence") for i in range(ctx.n(4, 24))) if c]
     cases += [c for c in (make_case("C15-t2-iam", i, "iam") for i in range(ctx.n(3, 16))) if c]
@@ -647,6 +653,7 @@ def run(ctx):
     e2e += [c for c in (make_case("C15-e2e-unsafe", i, "unsafe") for i in range(ctx.n(2, 8))) if c]
     e2e += [c for c in (make_case("C15-e2e-empty", i, "empty") for i in range(ctx.n(3, 10))) if c]
     e2e += [c for c in (make_case("C15-e2e-subpkg", i, "subpkg") for i in range(ctx.n(3, 12))) if c]
+    e2e += [c for c in (make_case("C15-e2e-deepsub", i, "deepsub") for i in range(ctx.n(2, 10))) if c]
     e2e += [c for c in (make_case("C15-e2e-streaming", i, "streaming") for i in range(ctx.n(3, 12))) if c]
     e2e += [c for c in (make_case("C15-e2e-presence", i, "presence") for i in range(ctx.n(3, 12))) if c]
     e2e += [c for c in (make_case("C15-e2e-ads-ci", i, "ads-ci") for i in range(ctx.n(3, 12))) if c]
